@@ -5,8 +5,25 @@
     C01_text, C01_attr          decoding what the serialiser wrote gives back the value
     C01_text_lexsafe, C01_attr_lexsafe   no raw `<` / `&`-less … in the escaped output
   The escape tables and entity names are the ones `extract.py` read off `/repo/src/entity.rs`.
+
+  Tree level, serialiser third (the other two thirds: tokenizer contract `lex (renderTokens ts) = ts`
+  under `LexOK`, Model/LexOK.lean; builder on a namespace-aware spelling, Lemmas/ParseNs*):
+    C01_serialised_is_rendering (+ _ok, _conv, _fails_iff, _at, _representable)
+        `to_string` of a tree IS `renderTokens (serTokens tree)` (Model/SerTokens.lean), one
+        equation covering success, the converse and the errors
+    C01_rendering_lexok, C01_rendering_lexok_fragment
+        for a `Representable` / `RepresentableFragment` tree the token list satisfies `LexOK`
+    C01_rendering_decodes
+        attribute / declaration values and text tokens decode back to the strings of the tree
+    C01_value_spelling
+        the same strings as well-spelled `Piece` lists (bridge to the builder theorems)
+  The names the tags and attributes are written with resolve, nearest declaration first, to the
+  names' namespaces: C10_sound_tree, C10_sound_tree_endtag, C10_sound_tree_attribute (Props/C10).
 -/
 import XotModel.Lemmas.Entity
+import XotModel.Lemmas.SerTokensLexTop
+import XotModel.Lemmas.SerTokensDecode
+import XotModel.Lemmas.SerTokensPieces
 
 namespace XotModel.Props
 open XotModel XotModel.Gen
@@ -46,5 +63,137 @@ theorem C01_attr_lexsafe (s : Str) :
 /-- Non-vacuity / sanity: a concrete string with every special character. -/
 example : parseAttribute (serializeAttribute ['a','\t','\n','\r','<','&','"','\'','>',']']) =
     .ok ['a','\t','\n','\r','<','&','"','\'','>',']'] := C01_attr _
+
+/-! ### Tree level: the serialised string is the canonical rendering of `serTokens` -/
+
+/-- `Xot::to_string(root)` is the canonical rendering (`renderTokens`, Model/TokenRender.lean) of
+    the token list `serTokensTop` reads off the tree, and fails exactly where that fails, with
+    the same error; it never panics.  For every table set in which `xml` and the prefixes the
+    tree declares have a non-empty spelling (`declsNamed`; implied by `Representable`; needed:
+    see the counterexample below), every tree, sound or not. -/
+theorem C01_serialised_is_rendering (env : Env) (t : Tree) (hx : env.prefixStr Env.xmlPrefix ≠ [])
+    (ht : t.allNodes (declsNamed env) = true) :
+    toXmlString env t [] =
+      (match serTokensTop env t with
+       | .ok ts => .ok (renderTokens ts)
+       | .error e => .err e) :=
+  toXmlString_serTokensTop env t hx ht
+
+theorem C01_serialised_is_rendering_ok (env : Env) (t : Tree) (hx : env.prefixStr Env.xmlPrefix ≠ [])
+    (ht : t.allNodes (declsNamed env) = true) (s : Str) (h : toXmlString env t [] = .ok s) :
+    ∃ ts, serTokensTop env t = .ok ts ∧ s = renderTokens ts := by
+  rw [C01_serialised_is_rendering env t hx ht] at h
+  cases hts : serTokensTop env t with
+  | ok ts => rw [hts] at h; cases h; exact ⟨ts, rfl, rfl⟩
+  | error e => rw [hts] at h; cases h
+
+theorem C01_serialised_is_rendering_conv (env : Env) (t : Tree) (hx : env.prefixStr Env.xmlPrefix ≠ [])
+    (ht : t.allNodes (declsNamed env) = true) (ts : List Token) (h : serTokensTop env t = .ok ts) :
+    toXmlString env t [] = .ok (renderTokens ts) := by
+  rw [C01_serialised_is_rendering env t hx ht, h]
+
+theorem C01_serialised_fails_iff (env : Env) (t : Tree) (hx : env.prefixStr Env.xmlPrefix ≠ [])
+    (ht : t.allNodes (declsNamed env) = true) (e : XotError) :
+    toXmlString env t [] = .err e ↔ serTokensTop env t = .error e := by
+  rw [C01_serialised_is_rendering env t hx ht]
+  cases serTokensTop env t <;> simp
+
+/-- Any start node, `unescaped_gt` on or off (no CDATA-section elements): `serialize_xml_string`
+    is the rendering of `serTokensAt`; a start element also writes the declarations in scope. -/
+theorem C01_serialised_is_rendering_at (env : Env) (pr : TokenParams) (t : Tree) (start : Path)
+    (hcd : pr.cdataSectionElements = []) (hx : env.prefixStr Env.xmlPrefix ≠ [])
+    (ht : t.allNodes (declsNamed env) = true) :
+    serializeString env pr t start =
+      (match serTokensAt env pr.unescapedGt t start with
+       | .ok ts => .ok (renderTokens ts)
+       | .error e => .err e) :=
+  serializeString_serTokensAt env pr t hcd start hx ht
+
+/-- On the round-trip domain no side condition is left. -/
+theorem C01_serialised_is_rendering_representable (env : Env) (t : Tree)
+    (hr : RepresentableFragment env t = true) :
+    toXmlString env t [] =
+      (match serTokensTop env t with
+       | .ok ts => .ok (renderTokens ts)
+       | .error e => .err e) := by
+  obtain ⟨henv, _, hn, _⟩ := (representableFragment_iff env t).mp hr
+  apply C01_serialised_is_rendering env t
+  · rw [envOK_xmlPrefix env henv]; simp
+  · exact nodeOK_declsNamed env t hn
+
+/-- The tokens of a representable document whose serialisation succeeds satisfy the side
+    conditions of the tokenizer contract in document mode: NCName prefixes and local names,
+    attribute values without `<` and `"`, non-empty text without `<` and `]]>`, XML Chars only,
+    comment and PI conditions, attributes only inside start tags, balanced tags, no two text
+    tokens in a row, comments / PIs around exactly one top-level element. -/
+theorem C01_rendering_lexok (env : Env) (t : Tree) (hr : Representable env t = true)
+    (ts : List Token) (h : serTokensTop env t = .ok ts) : LexOK false ts = true :=
+  lexOK_document env t hr ts h
+
+/-- Fragment mode (`parse_fragment`): any well-formed content under the document node. -/
+theorem C01_rendering_lexok_fragment (env : Env) (t : Tree) (hr : RepresentableFragment env t = true)
+    (ts : List Token) (h : serTokensTop env t = .ok ts) : LexOK true ts = true :=
+  lexOK_fragment env t hr ts h
+
+/-- Every attribute token (namespace declarations included) carries `serialize_attribute x` for a
+    string `x` and `parse_attribute` gives `x` back; every text token carries
+    `serialize_text x` and `parse_text` gives `x` back (C01_attr, C01_text inside the token list;
+    no side condition). -/
+theorem C01_rendering_decodes (env : Env) (t : Tree) (ts : List Token)
+    (h : serTokensTop env t = .ok ts) : ∀ k ∈ ts, k.Decodes :=
+  serTokensTop_decodes env t ts h
+
+/-- The escaped strings as spellings-as-data (`Piece`, the vocabulary of the builder theorems
+    C02_spelled*): one piece per character — literal, predefined entity or upper-case hexadecimal
+    reference — rendering to what the serialiser writes, denoting the value, well spelled. -/
+theorem C01_value_spelling (v : Str) :
+    (renderPieces (attrPieces v) = serializeAttribute v ∧ valueOf true (attrPieces v) = v ∧
+      WellSpelled (attrPieces v)) ∧
+    (renderPieces (textPieces v) = serializeText false v ∧ valueOf false (textPieces v) = v ∧
+      WellSpelled (textPieces v)) :=
+  ⟨⟨renderPieces_attrPieces v, valueOf_attrPieces v, wellSpelled_attrPieces v⟩,
+   ⟨renderPieces_textPieces v, valueOf_textPieces v, wellSpelled_textPieces v⟩⟩
+
+/-! Non-vacuity: a document with a default namespace, a prefixed child, an attribute value
+    `<&"` TAB, a text `]]>` CR, a comment and two PIs. -/
+
+def c01Env : Env where
+  namespaces := [[], xmlNamespaceUri, ['u', 'r', 'n', ':', 'a'], ['u', 'r', 'n', ':', 'b']]
+  prefixes := [[], ['x', 'm', 'l'], ['p']]
+  names := [(['s', 'p', 'a', 'c', 'e'], 1), (['i', 'd'], 1), (['r'], 2), (['c'], 3), (['k'], 0), (['t'], 0)]
+
+def c01Doc : Tree :=
+  .node .document [
+    .node (.comment ['h', 'i']) [],
+    .node (.element 2) [
+      .node (.namespace 0 2) [], .node (.namespace 2 3) [],
+      .node (.attribute 4 ['<', '&', '"', '\t']) [],
+      .node (.element 3) [],
+      .node (.text [']', ']', '>', '\r']) [],
+      .node (.pi 5 (some ['d'])) []],
+    .node (.pi 5 none) []]
+
+/-- `<!--hi--><r xmlns="urn:a" xmlns:p="urn:b" k="&lt;&amp;&quot;&#x9;"><p:c/>]]&gt;&#xD;<?t d?></r><?t?>` -/
+def c01Text : Str :=
+  "<!--hi--><r xmlns=\"urn:a\" xmlns:p=\"urn:b\" k=\"&lt;&amp;&quot;&#x9;\"><p:c/>]]&gt;&#xD;<?t d?></r><?t?>".toList
+
+example : Representable c01Env c01Doc = true := by decide
+example : toXmlString c01Env c01Doc [] = .ok c01Text := by decide
+example : ∃ ts, serTokensTop c01Env c01Doc = .ok ts ∧ renderTokens ts = c01Text ∧ LexOK false ts = true := by
+  obtain ⟨ts, h1, h2⟩ := C01_serialised_is_rendering_ok c01Env c01Doc (by decide) (by decide) c01Text
+    (by decide)
+  exact ⟨ts, h1, h2.symm, C01_rendering_lexok c01Env c01Doc (by decide) ts h1⟩
+
+/-- The side condition of `C01_serialised_is_rendering` is needed: with a declared prefix whose
+    spelling is empty (impossible for the tables of a real `Xot`: ids are a one-to-one interning,
+    C08) the serialiser writes `<:a xmlns:="u"/>`, which is no canonical rendering of
+    (prefix, local name) tokens. -/
+example :
+    let env : Env := { namespaces := [[], xmlNamespaceUri, ['u']], prefixes := [[], ['x', 'm', 'l'], []],
+                       names := [([], 0), ([], 0), (['a'], 2)] }
+    let t : Tree := .node .document [.node (.element 2) [.node (.namespace 2 2) []]]
+    toXmlString env t [] = .ok "<:a xmlns:=\"u\"/>".toList ∧
+    (serTokensTop env t).toOption.map renderTokens = some "<a xmlns:=\"u\"/>".toList := by
+  decide
 
 end XotModel.Props
